@@ -55,7 +55,7 @@ MUTANTS = [
     # ---- C16
     ("C16", "format-15-digits", "pyttb/export_data.py", "def export_array(fp: TextIO, data: np.ndarray, fmt_data: Optional[str]):\n    \"\"\"Export dense data.\"\"\"\n    if not fmt_data:\n        fmt_data = \"%.16e\"", "def export_array(fp: TextIO, data: np.ndarray, fmt_data: Optional[str]):\n    \"\"\"Export dense data.\"\"\"\n    if not fmt_data:\n        fmt_data = \"%.15e\""),
     ("C16", "dense-no-transpose", "pyttb/export_data.py", "            export_array(fp, data.data.transpose(), fmt_data)", "            export_array(fp, data.data, fmt_data)"),
-    ("C16", "sparse-no-plus-one", "pyttb/export_data.py", "        subs = A.subs[i, :] + 1", "        subs = A.subs[i, :]"),
+    ("C16", "sparse-no-plus-one", "pyttb/export_data.py", "        subs = subs + 1\n", "        subs = subs + 0\n"),
     ("C16", "open-append", "pyttb/export_data.py", "    with open(filename, \"w\") as fp:", "    with open(filename, \"a\") as fp:"),
     ("C16", "import-factor-f-order", "pyttb/import_data.py", "                fac = np.reshape(fac, np.array(fac_shape))", "                fac = np.reshape(fac, np.array(fac_shape), order=\"F\")"),
     ("C16", "import-index-base-ignored-for-zero", "pyttb/import_data.py", "        subs[k, :] = [np.int64(i) - index_base for i in line[:-1]]", "        subs[k, :] = [np.int64(i) - (index_base or 1) for i in line[:-1]]"),
